@@ -15,9 +15,15 @@ def units_stream(name, fields, **kw):
             return "go build genrun (does /repo still compile?): " + out[-2000:]
         gopath = subprocess.run(["go", "env", "GOPATH"], stdout=subprocess.PIPE, env=GOENV).stdout.decode().strip()
         modcache = subprocess.run(["go", "env", "GOMODCACHE"], stdout=subprocess.PIPE, env=GOENV).stdout.decode().strip()
-        st.cmd = ("rm -rf {wd}/gp && mkdir -p {wd}/gp && GENRUN_MODCACHE=%s GENRUN_GOPATH=%s GOPATH={wd}/gp GO111MODULE=off "
-                  "GENRUN_BUILDLOG={wd}/build.log {root}/build/genrun {wd}/gp {repo} < {cases} > {obs}; rc=$?; rm -rf {wd}/gp; exit $rc"
-                  % (modcache, gopath))
+        # C13 and C14 project different fields of the same run: share it (keyed by the cases, /repo's sources and the runner)
+        from lib.emit import _hash_inputs
+        key = _hash_inputs("units")
+        st.cmd = ("k={cache}/units/%s-$(sha1sum < {cases} | cut -c1-16).obs; mkdir -p {cache}/units; "
+                  "if [ -f $k ]; then cp $k {obs}; exit 0; fi; "
+                  "rm -rf {wd}/gp && mkdir -p {wd}/gp && GENRUN_MODCACHE=%s GENRUN_GOPATH=%s GOPATH={wd}/gp GO111MODULE=off "
+                  "GENRUN_BUILDLOG={wd}/build.log {root}/build/genrun {wd}/gp {repo} < {cases} > {obs}; rc=$?; rm -rf {wd}/gp; "
+                  "if [ $rc = 0 ]; then rm -f {cache}/units/*.obs; cp {obs} $k; fi; exit $rc"
+                  % (key, modcache, gopath))
         return None
     st.prepare = prepare
     return st
